@@ -28,7 +28,8 @@ ASSUMPTIONS = [
     "methodresponse=True together with notify=True is not specified by the statement: only 'raises TypeError/ValueError or emits a response' is required there",
     "a response with rpcid '' is not asserted either way",
 ]
-EXHAUSTIVE = ["flag/version grid of sub-check 'grid'", "id freshness over 2000 consecutive calls per (version, kind)"]
+EXHAUSTIVE = ["flag/version grid of sub-check 'grid'", "id freshness over 2000 consecutive calls per (version, kind)",
+              "two-thread id generation under every single preemption at a distinct source line of jsonrpc.py"]
 
 ABSENT = "<ABSENT>"
 
@@ -339,6 +340,53 @@ def oracle_fresh(case):
     return Info(nt=True, classes=["fresh-id-uniqueness"])
 
 
+def concurrent_fresh_cases(tier):
+    for version in (1.0, 2.0):
+        for via in ("dumps", "dump"):
+            yield {"version": version, "via": via, "occurrences": 1 if tier == "quick" else 3}
+
+
+def oracle_concurrent_fresh(case):
+    """Generated ids stay unique when two threads build messages at the same
+    time: every schedule with one preemption at a distinct source line"""
+    from vlib import detsched as D
+    J, Config = _imports()
+    cfg = Config(version=case["version"])
+    files = [J.__file__]
+
+    def run_once(chooser):
+        ids = []
+        sched = D.Scheduler(chooser, trace_files=files, max_steps=100000)
+
+        def main():
+            def work():
+                for _ in range(2):
+                    if case["via"] == "dumps":
+                        ids.append(json.loads(J.dumps([1], "m", version=case["version"], config=cfg))["id"])
+                    else:
+                        ids.append(J.dump([1], "m", version=case["version"], config=cfg)["id"])
+            ts = [D.SimThread(target=work, name="t%d" % i) for i in range(2)]
+            for t in ts:
+                t.start()
+            for t in ts:
+                t.join()
+        sched.run(main)
+        return ids, sched
+
+    infos = []
+    n = 0
+    for pre, (ids, sched), ch in D.single_preemption_sweep(run_once, max_points=600, occurrences=case["occurrences"], threads=2):
+        n += 1
+        if sched.uncaught:
+            fail("C14/other-exception", "message construction raised in a thread: %r" % (sched.uncaught,))
+        if len(ids) != 4 or len(set(ids)) != 4 or any(not isinstance(i, str) or not i for i in ids):
+            fail("C14/fresh-id", "ids generated by two concurrent threads are not unique: %r (one preemption at %r)" % (ids, pre))
+        infos.append(Info(nt=pre is not None, classes=["concurrent-fresh-id"], key=(case["version"], case["via"], pre[:2] if pre else None),
+                          sample={"version": case["version"], "via": case["via"], "preempt-at": list(pre) if pre else None}))
+    infos.append(Info(classes=["concurrent-fresh-id-complete"], key=("cf", case["version"], case["via"], case["occurrences"]), sample={"schedules": n}))
+    return Info(multi=infos)
+
+
 SUBS = [
     Sub("messages", oracle_message, strategy=lambda tier: message_cases(),
         budget={"quick": 12000, "thorough": 200000}, shards={"quick": 8, "thorough": 16},
@@ -349,6 +397,8 @@ SUBS = [
     Sub("grid", oracle_message, enumerate=grid_cases,
         shards={"quick": 4, "thorough": 4},
         what="exhaustive flag/version grid with representative params and ids"),
+    Sub("fresh-concurrent", oracle_concurrent_fresh, enumerate=concurrent_fresh_cases, shards={"quick": 4, "thorough": 4},
+        what="id freshness with two threads inside dumps/dump: every single preemption at a distinct source line (deterministic scheduler)"),
     Sub("fresh", oracle_fresh, enumerate=fresh_cases, shards={"quick": 1, "thorough": 1},
         what="id freshness over 2000 consecutive calls; loads('') is None"),
 ]
@@ -358,4 +408,5 @@ CLAIM = {
     "text": "Generated-input search: every (entry point, method, params, rpcid, version, flags, Config) combination drawn or enumerated is compared member by member with the message the statement prescribes; ids checked for verbatim use / freshness; invalid combinations must raise TypeError/ValueError. Exhaustive only over the discrete grid; random over values.",
     "note": "Trusts Python's json as the reference parser and the statement-derived table in props/c14.py; built-in json backend only.",
     "design_ref": "DESIGN.md section 4, C14",
+    "engine": "E1+E2",
 }
